@@ -17,13 +17,13 @@ structure It.Plain (it : It) : Prop where
 
 theorem parseSingle_single (s : List Char) (k : Key) (h : parseSingle true s = .ok k) : k.Single := by
   unfold parseSingle at h
-  simp only [bind_eq_ok] at h
+  simp only [bind_eq_ok_g] at h
   obtain ⟨c0, _, c1, _, ci, _, h⟩ := h
   split at h
   · cases h
   · split at h
     · cases h; exact Or.inr rfl
-    · rw [bind_eq_ok] at h
+    · rw [bind_eq_ok_g] at h
       obtain ⟨w, _, h⟩ := h
       cases h
       exact Or.inl rfl
@@ -55,7 +55,7 @@ theorem getWord_mem {argv : List Word} {i : Nat} {w : Word} (h : getWord argv i 
 theorem getSuffix_nocomma {argv : List Word} (ha : ArgvPlain argv) {i j : Nat} {s : Word}
     (h : getSuffix argv i j = .ok s) : ',' ∉ s := by
   unfold getSuffix at h
-  rw [bind_eq_ok] at h
+  rw [bind_eq_ok_g] at h
   obtain ⟨w, hw, h⟩ := h
   split at h
   · cases h
@@ -76,7 +76,7 @@ theorem mkEnd_plain {argv : List Word} (ha : ArgvPlain argv) {e : It} (h : It.mk
   unfold It.mkEnd at h
   split at h
   · cases h
-  · rw [bind_eq_ok] at h
+  · rw [bind_eq_ok_g] at h
     obtain ⟨w, _, h⟩ := h
     cases h
     exact ⟨ha, by simp, by intro hh; cases hh⟩
@@ -100,14 +100,14 @@ theorem next_plain (fuel : Nat) :
       split at hx
       · exact mkEnd_plain ha hx
       · split at hx
-        · rw [bind_eq_ok] at hx
+        · rw [bind_eq_ok_g] at hx
           obtain ⟨v, _, hx⟩ := hx
           cases hx
           exact plain_of_cur ha (by simp [Elem.setValue]) (by simp [Elem.setValue])
-        · rw [bind_eq_ok] at hx
+        · rw [bind_eq_ok_g] at hx
           obtain ⟨w, hw, hx⟩ := hx
           split at hx
-          · rw [bind_eq_ok] at hx
+          · rw [bind_eq_ok_g] at hx
             obtain ⟨c0, hc0, hx⟩ := hx
             split at hx
             · rename_i hctrl
@@ -144,12 +144,12 @@ theorem next_plain (fuel : Nat) :
           · refine ih.2 _ x ?_ hx; exact ha
     · intro it it' ha h
       unfold It.determineNextArg at h
-      rw [bind_eq_ok] at h
+      rw [bind_eq_ok_g] at h
       obtain ⟨c, _, h⟩ := h
       split at h
       · split at h
         · refine ih.1 _ it' ?_ h; exact ha
-        · rw [bind_eq_ok] at h
+        · rw [bind_eq_ok_g] at h
           obtain ⟨name, hname, h⟩ := h
           have hn := getSuffix_nocomma ha hname
           split at h
@@ -172,9 +172,9 @@ theorem begin_plain {argv : List Word} (ha : ArgvPlain argv) {ai : It} (h : It.b
   unfold It.begin at h
   split at h
   · exact mkEnd_plain ha h
-  · rw [bind_eq_ok] at h
+  · rw [bind_eq_ok_g] at h
     obtain ⟨w, _, h⟩ := h
-    rw [bind_eq_ok] at h
+    rw [bind_eq_ok_g] at h
     obtain ⟨c0, _, h⟩ := h
     split at h
     · split at h
@@ -188,7 +188,7 @@ theorem valueFor_plain {d : ArgDef} {ai : It} (hp : ai.Plain) {x : Word × It} (
   unfold valueFor at h
   split at h
   · cases h; exact hp
-  · rw [bind_eq_ok] at h
+  · rw [bind_eq_ok_g] at h
     obtain ⟨ait2, hs, h⟩ := h
     have h2 : ait2.Plain := by
       split at hs
@@ -213,7 +213,7 @@ theorem evalSingleArgument_plain {c : Cfg} {h h' : HState} {ai ai' : It} {r : Ar
         exact hp
       | some p =>
         rw [processArg_found_eq c h k ai p.1 p.2 hf] at hk
-        simp only [bind_eq_ok] at hk
+        simp only [bind_eq_ok_g] at hk
         obtain ⟨x, hx, _, _, hk⟩ := hk
         cases hk
         exact valueFor_plain hp hx
@@ -222,23 +222,23 @@ theorem evalSingleArgument_plain {c : Cfg} {h h' : HState} {ai ai' : It} {r : Ar
   unfold evalSingleArgument at he
   split at he
   · exact hproc _ he
-  · rw [bind_eq_ok] at he
+  · rw [bind_eq_ok_g] at he
     obtain ⟨k, _, he⟩ := he
     exact hproc k he
   · split at he <;> cases he <;> exact hp
   · dsimp only at he
     split at he
-    · rw [bind_eq_ok] at he
+    · rw [bind_eq_ok_g] at he
       obtain ⟨_, _, he⟩ := he
       cases he
       exact hp
-    · rw [bind_eq_ok] at he
+    · rw [bind_eq_ok_g] at he
       obtain ⟨found, _, he⟩ := he
       cases found with
       | none => cases he; exact hp
       | some p =>
         dsimp only at he
-        rw [bind_eq_ok] at he
+        rw [bind_eq_ok_g] at he
         obtain ⟨_, _, he⟩ := he
         cases he
         exact hp
